@@ -17,6 +17,9 @@ OPTION_KEYS = (
 )
 
 
+PRELUDE = None      # optional callable(recorder) run when a trace starts (C15: option settings)
+
+
 class CallTimeout(Exception):
     pass
 
@@ -64,6 +67,8 @@ class Recorder:
         self.timeout_s = timeout_s
         self.meta = {}
         self.state = {"cms": []}    # harness-side state actions may need (open context managers)
+        if PRELUDE is not None:
+            PRELUDE(self)
 
     # registers are 1-based in the log (TLA+ sequences)
     def obj(self, r: int):
@@ -132,6 +137,14 @@ class Recorder:
         return self.call(act, todo, args, prop=prop, targets=targets, keep=keep, **params)
 
     def to_json(self) -> dict:
+        # leave blocks the trace still has open now (harness-side, after the last event): a generator based
+        # context manager that is merely dropped restores its saved options whenever it is garbage collected,
+        # i.e. in the middle of some later trace
+        while self.state["cms"]:
+            try:
+                self.state["cms"].pop().__exit__(None, None, None)
+            except Exception:  # noqa: BLE001
+                pass
         d = {"id": self.id, "prop": self.prop, "seed": self.seed, "events": self.events}
         d.update(self.meta)
         return d
